@@ -1,22 +1,9 @@
 ---- MODULE MC_HttpRun ----
 EXTENDS MC_Http
-R1 == [id |-> "R1", qc |-> FALSE, ts |-> <<T("OPTIONS", "none"), T("GRAPHQL", "lcjson"), T("FORM", "none"), T("MULTIPART", "other"), T("WS", "none"), T("POST", "json")>>]
-R2 == [id |-> "R2", qc |-> TRUE, ts |-> <<T("MIXED", "none"), T("SSE", "none"), T("FORM", "json"), T("POST", "none"), T("GRAPHQL", "lcjson"), T("OPTIONS", "none"), T("MULTIPART", "gqlresp"), T("WS", "none")>>]
-R3 == [id |-> "R3", qc |-> TRUE, ts |-> <<T("GET", "lcjson"), T("MIXED", "none"), T("SSE", "none"), T("POST", "none"), T("FORM", "lcjson"), T("GRAPHQL", "none"), T("WS", "none"), T("OPTIONS", "none"), T("MULTIPART", "gqlresp")>>]
-R4 == [id |-> "R4", qc |-> TRUE, ts |-> <<T("WS", "none"), T("MULTIPART", "none"), T("SSE", "none"), T("FORM", "json+other"), T("MIXED", "none"), T("POST", "none"), T("GET", "other")>>]
-R5 == [id |-> "R5", qc |-> FALSE, ts |-> <<T("GET", "other"), T("SSE", "none"), T("OPTIONS", "none"), T("FORM", "other"), T("POST", "gqlresp"), T("GRAPHQL", "none"), T("MIXED", "none")>>]
-R6 == [id |-> "R6", qc |-> TRUE, ts |-> <<T("MIXED", "none"), T("OPTIONS", "none"), T("SSE", "none"), T("GET", "json+other"), T("WS", "none"), T("POST", "gqlresp"), T("GRAPHQL", "gqlresp")>>]
-ASSUME PrintT(ToJson([servers |-> {R1, R2, R3, R4, R5, R6}]))
+R1 == [id |-> "R1", qc |-> FALSE, ts |-> <<T("MIXED", "none"), T("MULTIPART", "none"), T("POST", "other"), T("FORM", "lcjson"), T("SSE", "none"), T("WS", "none"), T("GRAPHQL", "gqlresp")>>]
+ASSUME PrintT(ToJson([servers |-> {R1}]))
 OnlyS1 == {S1}
 OnlyS2 == {S2}
 OnlyS3 == {S3}
-OnlyS4 == {S4}
-OnlyS5 == {S5}
-OnlyS6 == {S6}
 OnlyR1 == {R1}
-OnlyR2 == {R2}
-OnlyR3 == {R3}
-OnlyR4 == {R4}
-OnlyR5 == {R5}
-OnlyR6 == {R6}
 ====
